@@ -69,6 +69,14 @@ func randomScenario(r *hc.RNG) scenario {
 	sc.kill = hc.Pick(r, "before", "arrived", "arrived", "acked", "acked", "returned", "none")
 	for i := 0; i < n; i++ {
 		switch sc.kill {
+		case "before":
+			// the requests are issued after the kill: their first copy travels on the replacement connection,
+			// nothing else will make the invocation return unless it is answered (or the client is closed)
+			if sc.end == "reconnect" {
+				sc.first = append(sc.first, hc.Pick(r, "res", "ackres"))
+			} else {
+				sc.first = append(sc.first, hc.Pick(r, "drop", "ack", "res", "ackres"))
+			}
 		case "returned", "none":
 			if sc.end == "reconnect" || sc.kill == "returned" {
 				sc.first = append(sc.first, hc.Pick(r, "res", "ackres"))
@@ -120,7 +128,15 @@ func monitor(sc scenario, o outcome) verdict {
 		return rs[r]
 	}
 	closed, alive := false, true
-	for _, e := range o.log {
+	laterDial := func(from int) bool {
+		for _, e := range o.log[from:] {
+			if e.kind == "dial" {
+				return true
+			}
+		}
+		return false
+	}
+	for idx, e := range o.log {
 		switch e.kind {
 		case "inv":
 			get(e.req).invoked = true
@@ -161,8 +177,9 @@ func monitor(sc scenario, o outcome) verdict {
 				}
 			case closed:
 				// a closed client returns errors: fine
-			case q.ackSeenEp >= 0 && !alive:
-				// acknowledged request whose connection was lost: the caller gets an error, by design
+			case q.ackSeenEp >= 0 && (!alive || laterDial(idx)):
+				// acknowledged request whose connection was lost (killed by the scenario, or died on its own:
+				// the client dials a replacement afterwards): the caller gets an error, by design
 			case q.ackSeenEp >= 0:
 				fail("acked-request-error-without-loss", fmt.Sprintf("request %d returned an error although its connection was not lost: %s", e.req, o.errs[e.req]))
 			case len(q.arrivals) == 0:
@@ -207,7 +224,15 @@ func modelTrace(sc scenario, o outcome) (acts []string, summary string) {
 	epoch, alive, closed := 0, true, false
 	res := make([]string, n)
 	emit := func(f string, a ...any) { acts = append(acts, fmt.Sprintf(f, a...)) }
-	for _, e := range o.log {
+	laterDial := func(from int) bool {
+		for _, e := range o.log[from:] {
+			if e.kind == "dial" {
+				return true
+			}
+		}
+		return false
+	}
+	for idx, e := range o.log {
 		switch e.kind {
 		case "inv":
 			emit("inv:%d", e.req)
@@ -274,6 +299,11 @@ func modelTrace(sc scenario, o outcome) (acts []string, summary string) {
 					res[e.req] = "K"
 				}
 			case closed || q.kind == "acked" || q.kind == "sent":
+				if !closed && alive && q.kind == "acked" && laterDial(idx) {
+					// the connection died on its own (the client dials a replacement right after)
+					emit("kill")
+					alive = false
+				}
 				emit("retErr:%d", e.req)
 				if e.req < n {
 					res[e.req] = "E"
@@ -412,17 +442,37 @@ func run(c *hc.Ctx) error {
 		return err
 	}
 	for i, a := range ans {
-		// the model's verdict on the finding is in holds=…; observables must agree exactly
-		want := wants[i]
+		// observables must agree exactly and the model's monitor must hold on the final state
+		want := wants[i] + " holds=1"
 		got := a
-		if j := strings.Index(got, " holds="); j >= 0 {
-			got = got[:j]
-		}
 		if results[i].v.anomaly {
 			continue // persistent watchdog: reported through the monitor, nothing to compare
 		}
-		if c.Compare(inputs[i], want, got) {
+		if want == got {
 			c.Res.TracesValidated++
+			continue
+		}
+		// the history comes from real sockets and goroutines: re-run the scenario before believing it
+		agreed := false
+		for try := 0; try < 2 && !agreed; try++ {
+			o2 := w.run(ctx, fmt.Sprintf("r%dt%d", i, try), results[i].sc)
+			v2 := monitor(results[i].sc, o2)
+			if v2.anomaly || len(v2.fails) > 0 {
+				continue
+			}
+			acts2, sum2 := modelTrace(results[i].sc, o2)
+			a2, err := c.Drv.Ask(fmt.Sprintf("c29 %d %s", len(results[i].sc.first)+1, strings.Join(acts2, " ")))
+			if err != nil {
+				return err
+			}
+			if a2 == "ok "+sum2+" holds=1" {
+				agreed = true
+				c.Note("mismatch not reproduced when the scenario was re-run (timing artefact): %s", results[i].sc.String())
+				c.Res.TracesValidated++
+			}
+		}
+		if !agreed {
+			c.Differ(inputs[i], want, got, "persisted over 2 re-runs")
 		}
 	}
 	return nil
